@@ -3,8 +3,10 @@
    of some operation-level interleaving of Atomic.astep".  It is not mechanised as one theorem
    (it needs a whole-system fine-grained model and a commutation argument for polls that observe
    a claimed, not yet finished signal).  Mechanised are its three ingredients:
-     (1) every entry point performs its state change in ONE critical section of the channel lock
-         (computed on the lock profiles regenerated from the current source);
+     (1) every entry point performs its state change in ONE critical section of the channel lock per
+         phase (registration; cancellation after a timeout), never waits under the lock and never
+         touches the protected data outside it: checked, with a proved checker, on the lock-discipline
+         automata regenerated from the current source (LockDiscipline.v);
      (2) critical sections exclude each other and are ordered (C17, Mutex.v);
      (3) work done outside the lock touches only the private slot of a waiter that was taken
          off the list under the lock, by exactly one peer, race-free (C07, Sig.v);
@@ -22,12 +24,19 @@ From KV Require Import Mem Mutex Sig.
 From KV.gen Require Import Gen_Sites Gen_Skel.
 From KV Require Import Reduce.
 From KV Require Import Base Chan Atomic.
-From KV.proofs Require Import LockProfile MutexProof SigProof ReduceProof AtomicReduce.
+From KV.proofs Require Import LockDiscipline MutexProof SigProof ReduceProof AtomicReduce.
 From Coq Require Import List NArith.
 Import ListNotations.
 
-Theorem c03_partial_one_critical_section_per_entry_point : offenders = [].
-Proof. exact one_critical_section_per_entry_point. Qed.
+(* on the lock-discipline automata of the current source: in no execution of any entry point is the lock taken
+   while held, the protected data used without it, a signal waited for under it, a return made with it - and
+   between two waits a call has at most one critical section *)
+Theorem c03_partial_one_critical_section_per_entry_point : undisciplined = [].
+Proof. exact lock_discipline_holds. Qed.
+
+Theorem c03_partial_no_execution_violates_the_lock_discipline : forall f a l b c,
+  In f Gen_Lock.lock_automata -> ld_run (snd f) a c -> (In (a, l, b) (snd f) -> violates l c = false) /\ snd c <= 1.
+Proof. exact no_execution_violates_the_discipline. Qed.
 
 Theorem c03_partial_critical_sections_exclude_each_other : forall o_s o_u tr s t1 t2,
   mrun o_s o_u minit tr = Some s -> m_pc s t1 = MHold -> m_pc s t2 = MHold -> t1 = t2.
@@ -62,11 +71,14 @@ Theorem c03_partial_lock_level_executions_are_atomic_runs : forall o_s o_u a0 tr
   forall t, f_loc _ _ s' t = outs_of t a0 order.
 Proof. exact lock_level_executions_are_atomic_runs. Qed.
 Print Assumptions c03_partial_one_critical_section_per_entry_point.
+Print Assumptions c03_partial_no_execution_violates_the_lock_discipline.
 Print Assumptions c03_partial_critical_sections_exclude_each_other.
 Print Assumptions c03_partial_outside_the_lock_only_the_claimed_signal.
 
-Example c03_witness : acquires ["acquire_internal"; "if x {"; "  drop(internal)"; "  acquire_internal"; "}"]%string = 2.
-Proof. vm_compute. reflexivity. Qed.
+Example c03_witness :
+  fn_ok ("two critical sections in one phase", [(0, "acquire", 1); (1, "release", 2); (2, "acquire", 3); (3, "release", 4); (4, "ret[]", 5)])%string = false
+  /\ fn_ok ("registration, wait, cancellation", [(0, "acquire", 1); (1, "cs", 2); (2, "release", 3); (3, "wait", 4); (4, "acquire", 5); (5, "release", 6); (6, "ret[]", 7)])%string = true.
+Proof. vm_compute. split; reflexivity. Qed.
 Print Assumptions c03_partial_critical_sections_are_atomic.
 Print Assumptions c03_partial_serialisation_keeps_program_order.
 
